@@ -116,14 +116,28 @@ Definition ok_esa_comp (with_lcp : bool) (t : list N) (sa : list N) (sa_probes l
   | None => false
   end.
 
+Fixpoint eqb_ll (a b : list (list N)) : bool :=
+  match a, b with
+  | [], [] => true
+  | x :: a', y :: b' => eqb_ln x y && eqb_ll a' b'
+  | _, _ => false
+  end.
+Fixpoint eqb_lll (a b : list (list (list N))) : bool :=
+  match a, b with
+  | [], [] => true
+  | x :: a', y :: b' => eqb_ll x y && eqb_lll a' b'
+  | _, _ => false
+  end.
+
 Inductive case_t :=
 | Core (c : core_t)
 | Dict (t : list N) (sa : list N) (ranges : list range_call_t) (conts : list cont_call_t) (das : list da_call_t)
 | EsaAlg (res : N) (t : list N) (sa1 : list N) (lcp_probes : list (option N)) (sa2 : list N) (bw : list N)
 | EsaComp (with_lcp : bool) (t : list N) (sa : list N) (sa_probes lcp_probes : list (option N))
           (tl len : N) (empty : bool)
-(* SA-IS: optimize_small_alphabet, text, the array the implementation returned *)
-| Sais (opt : bool) (t : list N) (sa : list N).
+(* SA-IS: optimize_small_alphabet, text, the array the implementation returned, and the per-level
+   intermediate arrays recorded by the trace hook (see ModelSais.sais_levels for the layout) *)
+| Sais (opt : bool) (t : list N) (sa : list N) (levels : list (list (list N))).
 
 Definition ok (c : case_t) : bool :=
   match c with
@@ -131,5 +145,7 @@ Definition ok (c : case_t) : bool :=
   | Dict t sa ranges conts das => ok_dict t sa ranges conts das
   | EsaAlg res t sa1 lp sa2 bw => ok_esa_alg res t sa1 lp sa2 bw
   | EsaComp wl t sa sp lp tl len empty => ok_esa_comp wl t sa sp lp tl len empty
-  | Sais opt t sa => match sais opt t with Some m => eqb_lnat m (map N.to_nat sa) | None => false end
+  | Sais opt t sa levels =>
+      match sais opt t with Some m => eqb_lnat m (map N.to_nat sa) | None => false end
+      && eqb_lll (sais_trace opt t) levels
   end.
